@@ -13,7 +13,7 @@ PROP = "C10"
 TECHNIQUE = "Hypothesis-generated catalog forecasts and observations vs. independent implementation of the statistics in docs/getting_started/theory.rst (Savran et al. 2020) and the Serafini et al. docstrings, from reference-gridded counts; explicit-signalling clauses checked as required outcomes"
 RULE = ("one case = space-magnitude region (1..8 cells, 1..4 magnitude bins) x catalog forecast of J=1..12 synthetic catalogs (0..15 events "
         "each, at least one non-empty; in memory or streamed from a written file) x observed catalog by class (empty, single event, events "
-        "only in sampled cells, >= 1 event in a never-sampled cell, all events in never-sampled cells, many per cell). Checked: number, "
+        "only in sampled cells, >= 1 event in a never-sampled cell, all events in never-sampled cells, many per cell, or event for event a copy of one synthetic catalog - half of these with 22..160 events whose per-bin counts c satisfy c / N * N != c in doubles). Checked: number, "
         "spatial, magnitude, pseudo-likelihood, resampled-magnitude and MLL tests (statistic, distribution, status, quantiles), calibration "
         "test input. 1 case in 12 repeats its synthetic catalogs 10x/25x (up to 300 catalogs); 1 in 4 runs with verbose=True. Non-trivial = J >= 3 with an empty synthetic catalog and an observation of >= 2 events; distinct = canonical JSON.")
 ASSUMPTIONS = ["mean rates = per-cell mean of the synthetic catalogs' gridded counts; spatial rate = its magnitude marginal (no area normalisation), N-bar = its total",
@@ -21,7 +21,8 @@ ASSUMPTIONS = ["mean rates = per-cell mean of the synthetic catalogs' gridded co
                "MLL statistic = +2*log(L(merged)/(L(union)L(catalog))) as in the MLL_score docstring",
                "at least one synthetic event overall (N_U > 0); events sit at bin centres (gridding is C03's subject)",
                "relative tolerance 1e-9; quantiles recomputed from the returned distribution with the counting oracle of C09",
-               "resampled-M / MLL distributions: length, finiteness and seed determinism only (random resamples)"]
+               "resampled-M / MLL distributions: length, finiteness and seed determinism only (random resamples)",
+               "an observation that is a copy of a synthetic catalog has, in the S, PL and M tests, exactly that catalog's statistic (same function of the same gridded counts): bit-for-bit equality, so that the tie counts in both quantiles"]
 SHARDS = {"quick": 8, "thorough": 16}
 TOL = 1e-9
 
